@@ -127,13 +127,8 @@ def run(rep):
     canary(rep, pv, 'C15/canary/order-is-total', [], z3.Or(theory.leq_info(x, y), theory.leq_info(y, x)))
     refuted = pv.discharge(env.NPROC)
     finish_refuted(rep, pv, refuted)
-    try:
-        from ..bounded import C15 as B
-    except ImportError:
-        B = None
-        rep.assume('bounded driver for C15 not present in this build')
-    if B is not None:
-        B.run_bounded(rep, quick)
+    from .common import run_bounded
+    run_bounded(rep, 'C15', quick)
     rep.extra['explanation'] = ('Per-operator Kleene monotonicity and totality are proved from the real tables for all argument values; n-ary '
                                 'operators are proved to be folds of their binary case for every arity; the circuit-level statement follows by '
                                 'induction over the rank of gates from the evaluation-loop invariants (c01_eval).')
